@@ -2,7 +2,8 @@
    Only statements here; proofs are in GossipP/LocalP.v. Model: Gossip/Local.v
    (clusterState.UpsertLocal / DeleteLocal / LeaveLocal / CompactLocal, pkg/gossip/state.go:230-374). *)
 From Coq Require Import List String NArith Bool.
-From Piko Require Import Base.Maps Base.Strs Gossip.Types Gossip.Local GossipP.SortP GossipP.LocalP.
+From Piko Require Import Base.Maps Base.Strs Gossip.Types Gossip.Local Gossip.Apply Gossip.World GossipP.SortP GossipP.LocalP.
+From Piko Require Import GossipP.Valid GossipP.ApplyValid GossipP.WorldInv.
 Import ListNotations.
 Open Scope string_scope. Open Scope N_scope.
 
@@ -59,6 +60,24 @@ Theorem C17_compact :
        (renum (filter keepb (sort_by_ver (values (n_ents s)))) (n_ver s) ++ [marker_of (n_ver s) (n_ver s')])%list).
 Proof. exact compact_spec. Qed.
 
+(* "observers that synchronise afterwards end up with the same live state": in every world reachable from the
+   initial cluster (any interleaving of writes, compactions, lossy/duplicating/reordering/truncating gossip, relays;
+   see C02_world_invariant for the exact step set), an observer whose view of x has reached x's version sees
+   exactly x's live keys and values - in particular after x compacted its deletions away *)
+Theorem C17_observers_agree :
+  forall specs jx x xaddr w,
+  NoDup (map fst specs) -> NoDup (map snd specs) -> nth_error specs jx = Some (x, xaddr) ->
+  reach (init_world specs) w ->
+  forall o c V cx O, nth_error (w_nodes w) o = Some c -> o <> jx -> lookup x (c_nodes c) = Some V ->
+  nth_error (w_nodes w) jx = Some cx -> lookup x (c_nodes cx) = Some O -> n_ver V = n_ver O ->
+  forall k, live V k = live O k.
+Proof.
+  intros specs jx x xaddr w H1 H2 H3 Hr o c V cx O Hc Hne HV Hcx HO Heq k.
+  destruct (views_valid specs H1 H2 jx x xaddr H3 w Hr) as [cx' [O' [A [B [C D]]]]].
+  assert (cx' = cx) by congruence. subst cx'. assert (O' = O) by congruence. subst O'.
+  unfold live. rewrite (caught_up_exact O V (log_of w x) C (D o c V Hc Hne HV) Heq k). reflexivity.
+Qed.
+
 (* The pinned tree (before fix D2) treated UpsertLocal(k, "") over a tombstone as unchanged. *)
 Definition upsert_local_pinned (k v : string) (s : node_state) : node_state :=
   match lookup k (n_ents s) with
@@ -91,5 +110,6 @@ Print Assumptions C17_invariant_reachable.
 Print Assumptions C17_versions.
 Print Assumptions C17_version_never_decreases.
 Print Assumptions C17_compact.
+Print Assumptions C17_observers_agree.
 Print Assumptions C17_refuted_pinned.
 Print Assumptions C17_example_history.
